@@ -8,7 +8,7 @@ use crate::exec::{Dir, Fault, MsgRec, Mutation};
 use crate::schema::{self, NodeMut, Ty, Val};
 
 /// A mutated version of one honest message.
-#[derive(Clone, Debug)]
+#[derive(Clone)]
 pub struct MsgMut {
     /// short class name, e.g. "struct:VecDropLast@[]" or "byte:trunc"
     pub class: String,
@@ -20,6 +20,8 @@ pub struct MsgMut {
     /// node path and mutation for structure-aware mutations
     pub path: Option<Vec<usize>>,
     pub node: Option<NodeMut>,
+    /// computed from the bytes actually sent (for faults that follow an earlier fault)
+    pub dynamic: Option<crate::exec::MutFn>,
 }
 
 fn pick_indices(n: usize, k: usize) -> Vec<usize> {
@@ -40,7 +42,7 @@ pub fn byte_level(ty: &Ty, val: &Val, bytes: &[u8], salt: u64, cap: usize) -> Ve
     let mut out = vec![];
     let mut push = |class: &str, detail: String, b: Vec<u8>| {
         if b != bytes {
-            out.push(MsgMut { class: format!("byte:{class}"), detail, bytes: Arc::new(b), malformed: true, path: None, node: None });
+            out.push(MsgMut { class: format!("byte:{class}"), detail, bytes: Arc::new(b), malformed: true, path: None, node: None, dynamic: None });
         }
     };
     push("empty", "empty message".into(), vec![]);
@@ -119,6 +121,7 @@ pub fn structural(ty: &Ty, val: &Val, cap: usize, only_counts: bool, extra_xor: 
                 malformed: m.changes_count(),
                 path: Some(path.clone()),
                 node: Some(m.clone()),
+                dynamic: None,
             });
         }
     }
@@ -147,4 +150,10 @@ pub struct FaultDesc {
     pub ord: usize,
     pub class: String,
     pub detail: String,
+}
+
+impl std::fmt::Debug for MsgMut {
+    fn fmt(&self, f: &mut std::fmt::Formatter<'_>) -> std::fmt::Result {
+        write!(f, "MsgMut({}: {})", self.class, self.detail)
+    }
 }
